@@ -457,6 +457,151 @@ def r03_11(chk, P):
     return n
 
 
+
+def _lin_local(F, e):
+    """integer expression over locals/parameters as ({var id: coef}, const) or None"""
+    e = F.strip_casts(e)
+    nd = F.ex[e]
+    k = nd['k']
+    if k == 'int':
+        return ({}, nd['v'])
+    if k == 'ref' and nd['decl'].get('kind') in ('var', 'param'):
+        return ({nd['decl']['id']: 1}, 0)
+    if k == 'bin' and nd['op'] in ('+', '-'):
+        a, b = _lin_local(F, nd['c'][0]), _lin_local(F, nd['c'][1])
+        if a is None or b is None:
+            return None
+        sg = 1 if nd['op'] == '+' else -1
+        d = dict(a[0])
+        for v, c in b[0].items():
+            d[v] = d.get(v, 0) + sg * c
+        return (d, a[1] + sg * b[1])
+    if k == 'un' and nd['op'] == '-':
+        a = _lin_local(F, nd['c'][0])
+        return None if a is None else ({v: -c for v, c in a[0].items()}, -a[1])
+    return None
+
+
+def r03_13(chk, P, rule='R03.13'):
+    chk.rule(rule, 'a search position that is stepped back and clamped just above a moving bound cannot sit on the clamp for ever: '
+             'where a loop of vorbisfile.c computes `x -= K; if(x <= L) x = L + c;` (L another local), the value L+c is a fixed '
+             'point of that update, so the step is reached only when x > L+c -- the branch conditions that control the step '
+             '(dominator chain, operands unchanged since the test) entail x - L >= c+1 in the exact linear domain (linrel).  '
+             'Otherwise the bisection seeks to the same byte and reads the same pages again and again once it has backed up '
+             'against its lower bound: a hang that needs a long run of foreign or damaged data between two pages')
+    import linrel
+    import cfg as _cfg
+    n = 0
+    for F in P.functions():
+        if not F.file.endswith('vorbisfile.c') or F.entry is None:
+            continue
+        loops = _cfg.loops(F)
+        inloop = set()
+        for body in loops.values():
+            inloop |= set(body)
+        for e in F.nodes('assign'):
+            nd = F.ex[e]
+            if nd['op'] != '=' or F.pos[e][0] not in inloop:
+                continue
+            l = F.ex[F.strip_casts(nd['c'][0])]
+            if l['k'] != 'ref' or l['decl'].get('kind') != 'var':
+                continue
+            x = l['decl']['id']
+            rhs = _lin_local(F, nd['c'][1])
+            if rhs is None or x in rhs[0] or len(rhs[0]) != 1 or list(rhs[0].values())[0] != 1:
+                continue
+            L = list(rhs[0])[0]
+            c = rhs[1]
+            # controlled by  x <= L (+k)
+            ctl = None
+            for cnd, pol in common.controlling_conditions(F, e):
+                cn = F.ex[F.strip_casts(cnd)]
+                if cn['k'] != 'bin' or cn['op'] not in ('<', '<=', '>', '>='):
+                    continue
+                a, b = _lin_local(F, cn['c'][0]), _lin_local(F, cn['c'][1])
+                if a is None or b is None:
+                    continue
+                if pol and set(a[0]) | set(b[0]) == {x, L}:
+                    ctl = cnd if ctl is None or F.loc(cnd) > F.loc(ctl) else ctl
+            if ctl is None:
+                continue
+            # the step: x -= K (K > 0) reaching the clamp without another definition of x
+            steps = []
+            for d in F.nodes('assign'):
+                dn = F.ex[d]
+                dl = F.ex[F.strip_casts(dn['c'][0])]
+                if dn['op'] == '-=' and dl['k'] == 'ref' and dl['decl'].get('id') == x and F.pos[d][0] in inloop:
+                    kv = common.const_val(F, dn['c'][1])
+                    if kv is not None and kv > 0:
+                        def redef(q, d=d):
+                            qn = F.ex[q]
+                            if qn['k'] == 'assign' and q not in (d, e):
+                                ql = F.ex[F.strip_casts(qn['c'][0])]
+                                return ql['k'] == 'ref' and ql['decl'].get('id') == x
+                            return False
+                        if _cfg.search(F, F.pos[d], lambda q: q == e, redef) is not None:
+                            steps.append(d)
+            for d in steps:
+                poly = linrel.Poly()
+                used = []
+                for cnd, pol in common.controlling_conditions(F, d):
+                    cn = F.ex[F.strip_casts(cnd)]
+                    if cn['k'] != 'bin' or cn['op'] not in ('<', '<=', '>', '>=', '==', '!='):
+                        continue
+                    a, b = _lin_local(F, cn['c'][0]), _lin_local(F, cn['c'][1])
+                    if a is None or b is None:
+                        continue
+                    vs = set(a[0]) | set(b[0])
+
+                    def mod(q, vs=vs):
+                        qn = F.ex[q]
+                        if qn['k'] == 'assign' or (qn['k'] == 'un' and qn['op'] in ('pre++', 'pre--', 'post++', 'post--')):
+                            ql = F.ex[F.strip_casts(qn['c'][0])]
+                            return ql['k'] == 'ref' and ql['decl'].get('id') in vs
+                        if qn['k'] == 'un' and qn['op'] == '&':
+                            ql = F.ex[F.strip_casts(qn['c'][0])]
+                            return ql['k'] == 'ref' and ql['decl'].get('id') in vs
+                        return False
+                    # a modification of an operand on a path from the test to the step that does not evaluate the test again
+                    stale = False
+                    for m in [q for q in F.pos if mod(q)]:
+                        if _cfg.search(F, F.pos[cnd], lambda q: q == m, lambda q: q == d or q == cnd) is not None and \
+                                _cfg.search(F, F.pos[m], lambda q: q == d, lambda q: q == cnd) is not None:
+                            stale = True
+                            break
+                    if stale:
+                        continue
+                    lin = {f'v{v}': k_ for v, k_ in a[0].items()}
+                    for v, k_ in b[0].items():
+                        lin[f'v{v}'] = lin.get(f'v{v}', 0) - k_
+                    cst = b[1] - a[1]                  # a - b (op) 0  <=>  lin (op) cst
+                    op = cn['op']
+                    if not pol:
+                        op = {'<': '>=', '<=': '>', '>': '<=', '>=': '<', '==': '!=', '!=': '=='}[op]
+                    if op == '<':
+                        poly.add(lin, cst - 1)
+                    elif op == '<=':
+                        poly.add(lin, cst)
+                    elif op == '>':
+                        poly.add_ge(lin, cst + 1)
+                    elif op == '>=':
+                        poly.add_ge(lin, cst)
+                    elif op == '==':
+                        poly.add_eq(lin, cst)
+                    else:
+                        continue
+                    used.append(('' if pol else '!') + F.s(cnd))
+                ok = poly.entails_ge({f'v{x}': 1, f'v{L}': -1}, c + 1)
+                n += 1
+                xn, Ln = F.vars[x]['name'], F.vars.get(L, {}).get('name', '?')
+                chk.ob(rule, F.name, f'step-back-excludes-clamp-value:{xn}#{len([q for q in F.nodes("assign") if F.ex[q]["op"] == "-=" and F.loc(q) < F.loc(d) and F.s(F.ex[q]["c"][0]) == F.s(F.ex[d]["c"][0])])}',
+                       ok, F.where(d),
+                       f'`{F.s(d)}` then `if({F.s(ctl)}) {F.s(e)}`: the step is controlled by {used}, which ' +
+                       (f'entail {xn} - {Ln} >= {c + 1}' if ok else
+                        f'do not entail {xn} - {Ln} >= {c + 1}: with {xn} == {Ln}+{c} the step and the clamp give {xn} == {Ln}+{c} again and '
+                        'the loop repeats the same seek and the same reads'))
+    return n
+
 def run(chk, P):
     r03_2(chk, P)
     chk.floor('R03.2', 1)
@@ -479,6 +624,14 @@ def run(chk, P):
     chk.floor('R03.10', 5)
     r03_11(chk, P)
     chk.floor('R03.11', 1)
+    r03_13(chk, P)
+    chk.floor('R03.13', 2)
+    from rules import c07
+    chk.rule('R03.12', 'no per-link value outlives a link switch: a local derived from the handle\'s current link (ov_info(vf,-1), '
+             'vf->vi+vf->current_link, ...) is not used after a call that may change vf->current_link without being recomputed -- a '
+             'stale channel count or block size sizes the accesses to the new link\'s decoder buffers (same obligations as R07.6)')
+    c07.r07_6(common.Proxy(chk, 'R03.12'), P, E, rule='R03.12')
+    chk.floor('R03.12', 3)
     r03_3(chk, P)
     chk.floor('R03.3', 10)
     chk.rule('R03.4', 'failed opens store NULL into vf->datasource before ov_clear on every path; the close callback has one '
